@@ -493,6 +493,7 @@ fn cell_candidates(sp: &SpecEnum) -> Vec<(String, &'static str)> {
             out.push((s, cls));
         }
     };
+    // pass 1: the specified strings themselves, in the order of the specification
     for (e, (kind, text)) in sp.entries.iter().zip(sp.texts()) {
         let wild = e.text.ends_with(".*");
         let cls = match (kind, wild) {
@@ -500,11 +501,11 @@ fn cell_candidates(sp: &SpecEnum) -> Vec<(String, &'static str)> {
             (Kind::A, _) => "cell.alias",
             _ => "cell.spelling",
         };
-        if wild {
-            push(format!("{text}x"), cls, &mut out);
-        } else {
-            push(text.clone(), cls, &mut out);
-        }
+        push(if wild { format!("{text}x") } else { text }, cls, &mut out);
+    }
+    // pass 2: their near-misses and what the other rename rules would have produced
+    for (e, (kind, text)) in sp.entries.iter().zip(sp.texts()) {
+        let wild = e.text.ends_with(".*");
         for n in near_misses(&text, wild) {
             push(n, if wild { "cell.wildnear" } else { "cell.near" }, &mut out);
         }
